@@ -54,5 +54,5 @@ def parts(tier):
              shards={"quick": 8, "thorough": 16}),
         Part("hyp-sequences", "hyp", check=check_seq,
              strategy=lambda t: st.builds(lambda s: {"seq": s}, gens.sequences(max_len=120 if t == "quick" else 500)),
-             examples={"quick": 1600, "thorough": 16000}, shards={"quick": 4, "thorough": 16}),
+             examples={"quick": 6400, "thorough": 32000}, shards={"quick": 4, "thorough": 16}),
     ]
